@@ -105,35 +105,52 @@ func VerifC01WriteSequence() {
 	w := NewWriter(verifDict.Map, func(k op.Key) Key { return NewKey(k, verifDict.Map) })
 	err := w.Write(rec, insts)
 	vf.Assert("write-succeeds", err == nil)
-	vf.Assert("exactly-the-expected-calls", len(rec.calls) == len(want))
-	if len(rec.calls) != len(want) {
-		return
-	}
-	for i, c := range rec.calls {
-		e := want[i]
-		vf.Assert("calls-in-order", c.kind == e.kind)
-		if c.kind != e.kind {
+	// match the recorded calls against the expected ones in order; a repeated tempo / meter /
+	// key call that restates the value in force is tolerated (redundant but correct)
+	forceBPM, forceKeyL, forceKeyA, forceKeyM := -1, 0, 0, false
+	wi := 0
+	for _, c := range rec.calls {
+		if wi < len(want) && c.kind == want[wi].kind {
+			e := want[wi]
+			wi++
+			switch c.kind {
+			case vcNote:
+				same := len(c.keys) == len(e.keys)
+				for j := 0; same && j < len(c.keys); j++ {
+					same = vf.Ite(c.keys[j] == uint8(e.keys[j]), same, false)
+				}
+				vf.Assert("chord-sounds-in-the-key-in-force", same)
+				vf.Assert("chord-length-as-written", c.value == e.value)
+				vf.Assert("chord-uses-the-dynamic-in-force", c.vel == e.vel)
+			case vcRest:
+				vf.Assert("rest-length-as-written", c.value == e.value)
+			case vcTempo:
+				vf.Assert("tempo-value", c.bpm == e.bpm)
+				forceBPM = e.bpm
+			case vcMeter:
+				vf.Assert("default-meter", c.num == 4 && c.den == 4)
+			case vcKey:
+				sig := spec.Signature(e.kl, e.ka, e.kminor)
+				vf.Assert("key-signature-of-the-key-set", c.isMajor == !e.kminor && int(c.cnt) == vf.Ite(sig < 0, -sig, sig))
+				forceKeyL, forceKeyA, forceKeyM = e.kl, e.ka, e.kminor
+			}
+			continue
+		}
+		redundant := false
+		switch c.kind {
+		case vcTempo:
+			redundant = forceBPM >= 0 && c.bpm == forceBPM
+		case vcMeter:
+			redundant = c.num == 4 && c.den == 4
+		case vcKey:
+			sig := spec.Signature(forceKeyL, forceKeyA, forceKeyM)
+			redundant = c.isMajor == !forceKeyM && int(c.cnt) == vf.Ite(sig < 0, -sig, sig)
+		}
+		vf.Assert("calls-in-order", redundant)
+		if !redundant {
 			return
 		}
-		switch c.kind {
-		case vcNote:
-			same := len(c.keys) == len(e.keys)
-			for j := 0; same && j < len(c.keys); j++ {
-				same = vf.Ite(c.keys[j] == uint8(e.keys[j]), same, false)
-			}
-			vf.Assert("chord-sounds-in-the-key-in-force", same)
-			vf.Assert("chord-length-as-written", c.value == e.value)
-			vf.Assert("chord-uses-the-dynamic-in-force", c.vel == e.vel)
-		case vcRest:
-			vf.Assert("rest-length-as-written", c.value == e.value)
-		case vcTempo:
-			vf.Assert("tempo-value", c.bpm == e.bpm)
-		case vcMeter:
-			vf.Assert("default-meter", c.num == 4 && c.den == 4)
-		case vcKey:
-			sig := spec.Signature(e.kl, e.ka, e.kminor)
-			vf.Assert("key-signature-of-the-key-set", c.isMajor == !e.kminor && int(c.cnt) == vf.Ite(sig < 0, -sig, sig))
-		}
 	}
+	vf.Assert("exactly-the-expected-calls", wi == len(want))
 	vf.Reach("end")
 }
